@@ -738,6 +738,30 @@ theorem run_events {P : Event → Prop} {e : Ending}
     (st : σ) (s : Bytes) : ∀ ev ∈ (run h st s e).2, P ev :=
   runAux_events h hend hclosed hcall hresp _ st s
 
+/-! ### F8: handlers that never return `ErrProtocolError` -/
+
+/-- the handler never returns `ErrProtocolError`, on any table, in any state, for any request -/
+def Handler.NoProtoErr (h : Handler σ) : Prop :=
+  ∀ st r, (h.coils st r).2 ≠ .error .protocolError ∧ (h.discrete st r).2 ≠ .error .protocolError ∧
+    (h.holding st r).2 ≠ .error .protocolError ∧ (h.input st r).2 ≠ .error .protocolError
+
+theorem Handler.NoProtoErr.spec {h : Handler σ} (hn : h.NoProtoErr) : Spec.NoProtoErr h := by
+  intro st r
+  obtain ⟨h1, h2, h3, h4⟩ := hn st r
+  cases r <;> simp only [Spec.invoke]
+  · cases hx : (h.coils st _).2 with
+    | ok l => simp
+    | error e => rw [hx] at h1; simpa using h1
+  · cases hx : (h.discrete st _).2 with
+    | ok l => simp
+    | error e => rw [hx] at h2; simpa using h2
+  · cases hx : (h.holding st _).2 with
+    | ok l => simp
+    | error e => rw [hx] at h3; simpa using h3
+  · cases hx : (h.input st _).2 with
+    | ok l => simp
+    | error e => rw [hx] at h4; simpa using h4
+
 /-! ### 6. one complete frame; pipelined frames -/
 
 theorem run_frame (txn : U16) (req : Pdu) (rest : Bytes) (e : Ending) (hp : req.payload.length ≤ 252) :
@@ -769,5 +793,113 @@ theorem frameStep_f8 (txn : U16) (req : Pdu) (cont : σ → σ × List Event) (r
     frameStep (handle h st req) txn cont = ((Spec.invoke h st r).1, [.call r, .closed]) := by
   rw [handle_eq, handleSpec, hv]
   simp [frameStep, he]
+
+theorem checkQtyRange_ne_unsupported {fc : Byte} {a q : U16} {k : Spec.ReqClass}
+    (hk : k ≠ .unsupported) : Spec.checkQtyRange fc a q k ≠ .unsupported := by
+  unfold Spec.checkQtyRange
+  split
+  · simp
+  split
+  · simp
+  exact hk
+
+/-- the supported function codes are exactly 01–06, 0F, 10 -/
+theorem classify_unsupported_iff (u fc : Byte) (pl : Bytes) :
+    Spec.classify u fc pl = .unsupported ↔
+      (fc ≠ 1 ∧ fc ≠ 2 ∧ fc ≠ 3 ∧ fc ≠ 4 ∧ fc ≠ 5 ∧ fc ≠ 6 ∧ fc ≠ 15 ∧ fc ≠ 16) := by
+  constructor
+  · intro hc
+    unfold Spec.classify at hc
+    repeat' split at hc
+    all_goals first
+      | cases hc
+      | (refine absurd hc (checkQtyRange_ne_unsupported ?_); first | (split <;> simp; done) | (simp; done))
+      | simp_all
+    rename_i h1 h5 h6 hF h10
+    exact ⟨fun h => h1 (Or.inl h), fun h => h1 (Or.inr (Or.inl h)),
+      fun h => h1 (Or.inr (Or.inr (Or.inl h))), fun h => h1 (Or.inr (Or.inr (Or.inr h))),
+      h5, h6, hF, h10⟩
+  · rintro ⟨h1, h2, h3, h4, h5, h6, h7, h8⟩
+    have h1' : ¬ fc = 1#8 := h1
+    have h2' : ¬ fc = 2#8 := h2
+    have h3' : ¬ fc = 3#8 := h3
+    have h4' : ¬ fc = 4#8 := h4
+    have h5' : ¬ fc = 5#8 := h5
+    have h6' : ¬ fc = 6#8 := h6
+    have hF' : ¬ fc = 15#8 := h7
+    have h10' : ¬ fc = 16#8 := h8
+    simp [Spec.classify, h1', h2', h3', h4', h5', h6', hF', h10']
+
+/-! ### 7. complete frames followed by different tails (C13) -/
+
+def Event.isEnded : Event → Bool
+  | .ended _ => true
+  | _ => false
+
+def Event.isCall : Event → Bool
+  | .call _ => true
+  | _ => false
+
+/-- the byte stream of a list of complete frames -/
+def frames (fs : List (U16 × Pdu)) : Bytes := (fs.map (fun f => Mbap.assemble f.1 f.2)).flatten
+
+theorem frames_cons (txn : U16) (req : Pdu) (fs : List (U16 × Pdu)) (t : Bytes) :
+    frames ((txn, req) :: fs) ++ t = Mbap.assemble txn req ++ (frames fs ++ t) := by
+  simp [frames]
+
+/-- complete frames followed by two tails on which the session just ends: either the session
+    never gets to the tail (a frame closed the connection) and the runs coincide, or they differ
+    in the final `ended` error only -/
+theorem run_frames_tail (e : Ending) (t1 t2 : Bytes) (err1 err2 : Err)
+    (h1 : ∀ st, run h st t1 e = (st, [.ended err1])) (h2 : ∀ st, run h st t2 e = (st, [.ended err2])) :
+    ∀ (fs : List (U16 × Pdu)) (st : σ), (∀ f ∈ fs, f.2.payload.length ≤ 252) →
+      run h st (frames fs ++ t1) e = run h st (frames fs ++ t2) e ∨
+      ∃ st' evs, run h st (frames fs ++ t1) e = (st', evs ++ [.ended err1]) ∧
+        run h st (frames fs ++ t2) e = (st', evs ++ [.ended err2]) ∧
+        (∀ ev ∈ evs, ev.isEnded = false) := by
+  intro fs
+  induction fs with
+  | nil =>
+    intro st _
+    right
+    exact ⟨st, [], by simp [frames, h1], by simp [frames, h2], by simp⟩
+  | cons f fs ih =>
+    intro st hf
+    obtain ⟨txn, req⟩ := f
+    have hp : req.payload.length ≤ 252 := hf (txn, req) List.mem_cons_self
+    have hf' : ∀ g ∈ fs, g.2.payload.length ≤ 252 := fun g hg => hf g (List.mem_cons_of_mem _ hg)
+    rw [frames_cons, frames_cons, run_frame h st txn req _ e hp, run_frame h st txn req _ e hp]
+    rcases handle h st req with ⟨st1, call, act⟩
+    cases act with
+    | close => left; rfl
+    | panic => left; rfl
+    | respond p =>
+      rcases ih st1 hf' with heq | ⟨st', evs, ha, hb, hne⟩
+      · left; simp only [frameStep, heq]
+      · right
+        refine ⟨st', (match call with | some c => [Event.call c] | none => []) ++
+          [.respond (Mbap.assemble txn p)] ++ evs, ?_, ?_, ?_⟩
+        · simp only [frameStep, ha, List.append_assoc]
+        · simp only [frameStep, hb, List.append_assoc]
+        · intro ev hev
+          cases call <;> simp at hev <;> rcases hev with hev | hev
+          · subst hev; rfl
+          · exact hne ev hev
+          · subst hev; rfl
+          · rcases hev with hev | hev
+            · subst hev; rfl
+            · exact hne ev hev
+
+/-! ### 8. handlers for the concrete examples -/
+
+/-- a handler over no state: every table answers with a fixed result -/
+def constHandler (bits : Except Err (List Bool)) (regs : Except Err (List U16)) : Handler Unit :=
+  { coils := fun _ _ => ((), bits), discrete := fun _ _ => ((), bits),
+    holding := fun _ _ => ((), regs), input := fun _ _ => ((), regs) }
+
+theorem constHandler_noProtoErr (bits : Except Err (List Bool)) (regs : Except Err (List U16))
+    (hb : bits ≠ .error .protocolError) (hr : regs ≠ .error .protocolError) :
+    (constHandler bits regs).NoProtoErr :=
+  fun _ _ => ⟨hb, hb, hr, hr⟩
 
 end Modbus.Server
